@@ -193,6 +193,8 @@ def classify(res, lines, unit):
     fn = loc.get('function', '')
     if 'VACUITY-CANARY' in desc:
         return 'canary', desc
+    if fn.startswith('__CPROVER_contracts') or prop.startswith('__CPROVER_contracts'):
+        return 'A', 'contract instrumentation: %s' % desc
     if '.postcondition' in prop or 'ensures clause' in desc:
         return 'P', 'postcondition of %s: %s' % (fn or unit.get('enforce', ''), srcline)
     if '.assertion' in prop or prop.endswith('.assert') or re.search(r'\.assertion\.\d+$', prop):
